@@ -18,7 +18,7 @@ def _on_alarm(signum, frame):
     raise Hang()
 
 
-def guarded(fn, seconds=0.5, confirm=1.0):
+def guarded(fn, seconds=0.2, confirm=0.6):
     """Run fn() under a CPU-time limit; a call that exceeds it is run a second time under the
     larger limit `confirm` and only reported as "hang" if it exceeds that too (a garbage
     collection or a cold import inside the first attempt cannot fake a hang).  fn must therefore
